@@ -1,6 +1,6 @@
 (* C12 — Merged deltas equal the direct delta. *)
 From Coq Require Import List NArith Bool.
-From RV Require Import Base.KMap C11.Model C11.Proofs.
+From RV Require Import Base.KMap C11.Model C11.Proofs C11.Spec C12.Spec C12.Proofs.
 Import ListNotations.
 Local Open Scope N_scope.
 
@@ -35,6 +35,19 @@ Proof.
   rewrite !papply_pconstruct by assumption. reflexivity.
 Qed.
 
+(* the executable oracle (merged = direct, same order and counts, catches up to the last data set)
+   holds of the model's merge of the retained non-empty change sets, for every sequence of data sets *)
+Theorem C12_model_satisfies_spec : forall s0 ss, snap_sorted s0 -> Forall snap_sorted ss ->
+  spec_okb12 s0 ss (model_merged s0 ss) = true.
+Proof. exact model_merged_ok. Qed.
+
+Theorem C12_merged_is_direct : forall s0 ss, snap_sorted s0 -> Forall snap_sorted ss ->
+  match merged_of s0 ss with
+  | None => forallb pd_is_empty (psteps s0 ss) = true /\ last ss s0 = s0
+  | Some d => forallb pd_is_empty (psteps s0 ss) = false /\ d = pconstruct_raw s0 (last ss s0)
+  end.
+Proof. exact merged_of_spec. Qed.
+
 Example C12_nonvacuous :
   let a := [(10, [1; 2])] in let b := [(10, [3])] in let c := [(10, [1; 2]); (11, [])] in
   ksorted a /\ ksorted b /\ ksorted c /\
@@ -45,3 +58,5 @@ Check C12_merge_pair : forall a b c, snap_sorted a -> snap_sorted b -> snap_sort
   pmerge (pconstruct_raw a b) (pconstruct_raw b c) = pconstruct_raw a c.
 Check C12_chain_aspa : forall s0 s1 ss, ksorted s0 -> ksorted s1 -> Forall ksorted ss ->
   fold_left amerge (steps nlist_eqb [] s1 ss) (aconstruct s0 s1) = aconstruct s0 (last ss s1).
+Check C12_model_satisfies_spec : forall s0 ss, snap_sorted s0 -> Forall snap_sorted ss ->
+  spec_okb12 s0 ss (model_merged s0 ss) = true.
